@@ -60,21 +60,28 @@ func recordContexts(src string, m Mode, nestEvery int, coin *rand.Rand) (obs []c
 			obs = append(obs, ctxObs{kind + " (after a nested parse by another parser of the same builder)", p.CurrentToken.Start, p.IsInFunction(), p.CurrentContext(), st})
 		}
 	}
-	b.UseStatementInterceptor(func(p *parser.Parser, next func() ast.Statement) ast.Statement {
-		record("statement", p)
-		if coin != nil && depth == 0 && coin.IntN(3) == 0 {
-			// a plugin that parses the statement itself through the public Parse*Statement API (see dispatchStatement)
-			return dispatchStatement(p)
-		}
-		return next()
-	})
-	b.UseExpressionInterceptor(func(p *parser.Parser, next func() ast.Expression) ast.Expression {
-		record("expression", p)
-		if coin != nil && depth == 0 && coin.IntN(4) == 0 {
-			return p.ParseRemainingExpression(dispatchPrefix(p))
-		}
-		return next()
-	})
+	// which kinds of interceptor are installed varies: both, only a statement interceptor, only an expression interceptor
+	// (the answers must not depend on which other interceptors exist)
+	which := len(src) % 4 // 0,1: both  2: statement only  3: expression only
+	if which != 3 {
+		b.UseStatementInterceptor(func(p *parser.Parser, next func() ast.Statement) ast.Statement {
+			record("statement", p)
+			if coin != nil && depth == 0 && coin.IntN(3) == 0 {
+				// a plugin that parses the statement itself through the public Parse*Statement API (see dispatchStatement)
+				return dispatchStatement(p)
+			}
+			return next()
+		})
+	}
+	if which != 2 {
+		b.UseExpressionInterceptor(func(p *parser.Parser, next func() ast.Expression) ast.Expression {
+			record("expression", p)
+			if coin != nil && depth == 0 && coin.IntN(4) == 0 {
+				return p.ParseRemainingExpression(dispatchPrefix(p))
+			}
+			return next()
+		})
+	}
 	p = b.Build(src)
 	_, err = p.ParseProgram()
 	return
